@@ -114,7 +114,7 @@ def ExpOK (c : Cfg) (s : St) : Prop := 0 < s.nextExpire → 0 < s.exp ∧ s.exp 
 
 def Inv (c : Cfg) (s : St) : Prop :=
   s.status = .closed ∨
-  (s.status = .connecting ∧ s.auth = false ∧ s.timerOp = .stale ∧
+  (s.status = .connecting ∧ (s.auth = false ∨ s.unusable = true) ∧ s.timerOp = .stale ∧
     s.nextExpire = 0 ∧ s.nextPresence = 0 ∧ s.nextPing = 0 ∧ s.nextPong = 0) ∨
   (s.status = .connected ∧ s.auth = true ∧ Armed s ∧ 0 < s.nextPresence ∧ ExpOK c s)
 
@@ -238,11 +238,11 @@ theorem expire_inv (c : Cfg) (s : St) (now : Nat) (hsec : 0 < c.sec)
 theorem inv_congr (c : Cfg) (s s' : St) (h1 : s'.status = s.status) (h2 : s'.auth = s.auth)
     (h3 : s'.timerOp = s.timerOp) (h4 : s'.armed = s.armed) (h5 : s'.nextExpire = s.nextExpire)
     (h6 : s'.nextPresence = s.nextPresence) (h7 : s'.nextPing = s.nextPing) (h8 : s'.nextPong = s.nextPong)
-    (h9 : s'.exp = s.exp) (h : Inv c s) : Inv c s' := by
+    (h9 : s'.exp = s.exp) (h10 : s'.unusable = s.unusable) (h : Inv c s) : Inv c s' := by
   have hpick : pick s' = pick s := by unfold pick; rw [h5, h6, h7, h8]
   rcases h with h | ⟨a, b, d, e, f, g, i⟩ | ⟨a, b, ⟨o, t, hp, har, hop⟩, e, f⟩
   · exact Or.inl (h1 ▸ h)
-  · exact Or.inr (Or.inl ⟨h1 ▸ a, h2 ▸ b, h3 ▸ d, h5 ▸ e, h6 ▸ f, h7 ▸ g, h8 ▸ i⟩)
+  · exact Or.inr (Or.inl ⟨h1 ▸ a, by rw [h2, h10]; exact b, h3 ▸ d, h5 ▸ e, h6 ▸ f, h7 ▸ g, h8 ▸ i⟩)
   · refine Or.inr (Or.inr ⟨h1 ▸ a, h2 ▸ b, ⟨o, t, hpick ▸ hp, h4 ▸ har, h3 ▸ hop⟩, h6 ▸ e, ?_⟩)
     unfold ExpOK at *
     rw [h5, h9]; exact f
@@ -251,7 +251,7 @@ theorem presenceTick_inv (c : Cfg) (s : St) (now : Nat) (hst : s.status = .conne
     (he : ExpOK c s) (hpos : 0 < now + c.presInterval) : Inv c (presenceTick c s now).1 := by
   unfold presenceTick
   exact inv_congr c (schedule { s with nextPresence := now + c.presInterval }) _
-    rfl rfl rfl rfl rfl rfl rfl rfl rfl (schedule_inv c _ hst hau hpos he)
+    rfl rfl rfl rfl rfl rfl rfl rfl rfl rfl (schedule_inv c _ hst hau hpos he)
 
 theorem fireOp_inv (c : Cfg) (s : St) (now : Nat) (hsec : 0 < c.sec) (hnow : 0 < now)
     (hst : s.status = .connected) (hau : s.auth = true) (hp : 0 < s.nextPresence) (he : ExpOK c s)
@@ -299,12 +299,15 @@ theorem fire_inv (c : Cfg) (s : St) (now : Nat) (hsec : 0 < c.sec) (hnow : 0 < n
         rw [if_neg hcl]
         unfold fireOp
         show Inv c (match s.timerOp with
-          | .stale => if !s.auth then close { s with armed := none } dStale else ({ s with armed := none }, [])
+          | .stale => if (!s.auth || s.unusable) = true then close { s with armed := none } dStale else ({ s with armed := none }, [])
           | .presence => presenceTick c { s with armed := none } now
           | .expire => expire c { s with armed := none } now
           | .ping => sendPing c { s with armed := none } now
           | .pong => checkPong { s with armed := none }).1
-        rw [hop, hau]
+        rw [hop]
+        have hcond : (!s.auth || s.unusable) = true := by
+          rcases hau with h | h <;> simp [h]
+        simp only [hcond, if_true]
         exact close_inv c _ _
       · have hcl : ¬ s.status = .closed := by rw [hst]; decide
         rw [if_neg hcl]
@@ -359,6 +362,13 @@ theorem step_inv (c : Cfg) (s : St) (now : Nat) (op : Op) (hsec : 0 < c.sec) (hn
     · rw [if_pos h]; exact Or.inl h
     · have hcl : ¬ s.status = .closed := by rw [a]; decide
       rw [if_neg hcl]
+      by_cases hu : s.unusable = true
+      · rw [if_pos hu]; exact close_inv c _ _
+      rw [if_neg hu]
+      have b : s.auth = false := by
+        rcases b with b | b
+        · exact b
+        · exact absurd b hu
       have hb : ¬ (s.auth = true) := by rw [b]; decide
       rw [if_neg hb]
       refine schedule_inv c _ rfl rfl (by show 0 < now + jr; omega) ?_
@@ -380,7 +390,32 @@ theorem step_inv (c : Cfg) (s : St) (now : Nat) (op : Op) (hsec : 0 < c.sec) (hn
             else s.nextExpire) := hne
         omega
     · have hcl : ¬ s.status = .closed := by rw [a]; decide
-      rw [if_neg hcl, if_pos b]
+      rw [if_neg hcl]
+      by_cases hu : s.unusable = true
+      · rw [if_pos hu]; exact close_inv c _ _
+      rw [if_neg hu, if_pos b]
+      exact close_inv c _ _
+  | connectFail =>
+    simp only [step]
+    rcases h with h | ⟨a, b, d, e1, f, g, i⟩ | ⟨a, b, _⟩
+    · rw [if_pos h]; exact Or.inl h
+    · have hcl : ¬ s.status = .closed := by rw [a]; decide
+      rw [if_neg hcl]
+      by_cases hu : s.unusable = true
+      · rw [if_pos hu]; exact close_inv c _ _
+      rw [if_neg hu]
+      by_cases hb : s.auth = true
+      · rw [if_pos hb]; exact close_inv c _ _
+      rw [if_neg hb]
+      by_cases hun : c.uni = true
+      · rw [if_pos hun]; exact close_inv c _ _
+      rw [if_neg hun]
+      exact Or.inr (Or.inl ⟨a, Or.inr rfl, d, e1, f, g, i⟩)
+    · have hcl : ¬ s.status = .closed := by rw [a]; decide
+      rw [if_neg hcl]
+      by_cases hu : s.unusable = true
+      · rw [if_pos hu]; exact close_inv c _ _
+      rw [if_neg hu, if_pos b]
       exact close_inv c _ _
   | pong =>
     simp only [step]
@@ -388,26 +423,46 @@ theorem step_inv (c : Cfg) (s : St) (now : Nat) (op : Op) (hsec : 0 < c.sec) (hn
     · rw [if_pos h]; exact Or.inl h
     · have hcl : ¬ s.status = .closed := by rw [a]; decide
       rw [if_neg hcl]
+      by_cases hu : s.unusable = true
+      · rw [if_pos hu]; exact close_inv c _ _
+      rw [if_neg hu]
+      have b : s.auth = false := by
+        rcases b with b | b
+        · exact b
+        · exact absurd b hu
       simp only [b, Bool.not_false, if_true]
       exact close_inv c _ _
     · have hcl : ¬ s.status = .closed := by rw [a]; decide
       rw [if_neg hcl]
+      by_cases hu : s.unusable = true
+      · rw [if_pos hu]; exact close_inv c _ _
+      rw [if_neg hu]
       simp only [b, Bool.not_true, Bool.false_eq_true, if_false]
       by_cases hx : s.lastPing = 0 ∨ s.ponged = true
       · rw [if_pos hx]; exact close_inv c _ _
       · rw [if_neg hx]
-        exact inv_congr c s _ rfl b.symm rfl rfl rfl rfl rfl rfl rfl (Or.inr (Or.inr ⟨a, b, har, hp, he⟩))
+        exact inv_congr c s _ rfl b.symm rfl rfl rfl rfl rfl rfl rfl rfl (Or.inr (Or.inr ⟨a, b, har, hp, he⟩))
   | refresh an =>
     simp only [step]
     rcases h with h | ⟨a, b, _⟩ | ⟨a, b, har, hp, he⟩
     · rw [if_pos h]; exact Or.inl h
     · have hcl : ¬ s.status = .closed := by rw [a]; decide
       rw [if_neg hcl]
+      by_cases hu : s.unusable = true
+      · rw [if_pos hu]; exact close_inv c _ _
+      rw [if_neg hu]
+      have b : s.auth = false := by
+        rcases b with b | b
+        · exact b
+        · exact absurd b hu
       simp only [b, Bool.not_false, if_true]
       exact close_inv c _ _
     · have hcl : ¬ s.status = .closed := by rw [a]; decide
       have hI : Inv c s := Or.inr (Or.inr ⟨a, b, har, hp, he⟩)
       rw [if_neg hcl]
+      by_cases hu : s.unusable = true
+      · rw [if_pos hu]; exact close_inv c _ _
+      rw [if_neg hu]
       simp only [b, Bool.not_true, Bool.false_eq_true, if_false]
       by_cases h1 : (!c.hasRH) = true
       · rw [if_pos h1]; exact hI
@@ -456,27 +511,47 @@ theorem step_inv (c : Cfg) (s : St) (now : Nat) (op : Op) (hsec : 0 < c.sec) (hn
     · rw [if_pos h]; exact Or.inl h
     · have hcl : ¬ s.status = .closed := by rw [a]; decide
       rw [if_neg hcl]
+      by_cases hu : s.unusable = true
+      · rw [if_pos hu]; exact close_inv c _ _
+      rw [if_neg hu]
+      have b : s.auth = false := by
+        rcases b with b | b
+        · exact b
+        · exact absurd b hu
       simp only [b, Bool.not_false, if_true]
       exact close_inv c _ _
     · have hcl : ¬ s.status = .closed := by rw [a]; decide
       have hI : Inv c s := Or.inr (Or.inr ⟨a, b, har, hp, he⟩)
       rw [if_neg hcl]
+      by_cases hu : s.unusable = true
+      · rw [if_pos hu]; exact close_inv c _ _
+      rw [if_neg hu]
       simp only [b, Bool.not_true, Bool.false_eq_true, if_false]
       by_cases h1 : (s.subs.any (·.ch == ch)) = true
       · rw [if_pos h1]; exact hI
       · rw [if_neg h1]
-        exact inv_congr c s _ rfl b.symm rfl rfl rfl rfl rfl rfl rfl hI
+        exact inv_congr c s _ rfl b.symm rfl rfl rfl rfl rfl rfl rfl rfl hI
   | subrefresh ch an =>
     simp only [step]
     rcases h with h | ⟨a, b, _⟩ | ⟨a, b, har, hp, he⟩
     · rw [if_pos h]; exact Or.inl h
     · have hcl : ¬ s.status = .closed := by rw [a]; decide
       rw [if_neg hcl]
+      by_cases hu : s.unusable = true
+      · rw [if_pos hu]; exact close_inv c _ _
+      rw [if_neg hu]
+      have b : s.auth = false := by
+        rcases b with b | b
+        · exact b
+        · exact absurd b hu
       simp only [b, Bool.not_false, if_true]
       exact close_inv c _ _
     · have hcl : ¬ s.status = .closed := by rw [a]; decide
       have hI : Inv c s := Or.inr (Or.inr ⟨a, b, har, hp, he⟩)
       rw [if_neg hcl]
+      by_cases hu : s.unusable = true
+      · rw [if_pos hu]; exact close_inv c _ _
+      rw [if_neg hu]
       simp only [b, Bool.not_true, Bool.false_eq_true, if_false]
       cases hf : s.subs.find? (·.ch == ch) with
       | none => exact hI
@@ -491,12 +566,12 @@ theorem step_inv (c : Cfg) (s : St) (now : Nat) (op : Op) (hsec : 0 < c.sec) (hn
             cases an with
             | error => exact hI
             | expired => exact close_inv c _ _
-            | zero => dsimp only; exact inv_congr c s _ rfl b.symm rfl rfl rfl rfl rfl rfl rfl hI
+            | zero => dsimp only; exact inv_congr c s _ rfl b.symm rfl rfl rfl rfl rfl rfl rfl rfl hI
             | «at» d =>
               by_cases hd : d < 0
               · simp only [hd, if_true]; exact hI
               · simp only [hd, if_false]
-                exact inv_congr c s _ rfl b.symm rfl rfl rfl rfl rfl rfl rfl hI
+                exact inv_congr c s _ rfl b.symm rfl rfl rfl rfl rfl rfl rfl rfl hI
 
 theorem applyRefresh_keeps (c : Cfg) (s : St) (now : Nat) (d : Int) :
     (applyRefresh c s now d).lastSeen = s.lastSeen ∧ (applyRefresh c s now d).lastPing = s.lastPing ∧
